@@ -5,6 +5,7 @@ package traefikoidc_test
 // (a plain map with last-write / expiry / last-use bookkeeping) judge C12 and C13 directly.
 
 import (
+	"strings"
 	"fmt"
 	"sort"
 	"sync"
@@ -90,6 +91,12 @@ func (r *cacheRun) obsState(o M) M {
 		o["len"] = len(items)
 		if r.withOrd {
 			o["order"] = order
+			// the key sets of the item map and of the element map (canonical order): the model predicts all three structures
+			ik := append([]string{}, items...)
+			ek := append([]string{}, elems...)
+			sort.Strings(ik)
+			sort.Strings(ek)
+			o["items"], o["elems"] = ik, ek
 		}
 		// internal consistency (C13): the three structures describe one key set, no duplicates
 		si := append([]string(nil), items...)
@@ -315,7 +322,7 @@ var ttlChoices = []time.Duration{-5, 0, 1, 2, 50, time.Second, 30 * time.Second,
 
 func familyCache(t *testing.T) {
 	rng := T.rng
-	if T.prop == "C13" {
+	if T.prop == "C13" || T.prop == "C12" {
 		cacheConcurrent()
 	}
 	synctest.Test(t, func(t *testing.T) {
@@ -608,7 +615,11 @@ func cacheConcurrent() {
 		}
 		close(bad)
 		for b := range bad {
-			T.oracle("C13", "concurrent cache use: "+b, M{"workers": workers, "cap": cap}, M{"family": "cache", "concurrent": true, "workers": workers, "cap": cap})
+			tag := "C13"
+			if T.prop == "C12" && strings.HasPrefix(b, "unexpired entry lost") { // C12: "a live entry is observable as long as capacity is not exceeded"
+				tag = "C12"
+			}
+			T.oracle(tag, "concurrent cache use: "+b, M{"workers": workers, "cap": cap}, M{"family": "cache", "concurrent": true, "workers": workers, "cap": cap})
 		}
 		T.statN("cache.concurrent.ops", workers*3000)
 		if hooksOn {
